@@ -19,3 +19,16 @@ package keeper
 //@   ensures[C17] item_set[k.adapter.params] && item_params[k.adapter.params] == g.AdapterGenesis.Params
 //@   ensures[C17] forall j int :: 0 <= j && j < len(g.ExecutorGenesis.PausedActionIds) ==> ks_i32[k.executor.PausedActions][g.ExecutorGenesis.PausedActionIds[j]]
 //@   ensures[C17] forall j int :: 0 <= j && j < len(g.ForwarderGenesis.PausedProtocolIds) ==> ks_i32[k.forwarder.pausedProtocols][g.ForwarderGenesis.PausedProtocolIds[j]]
+
+// Export (C17): the module's exported genesis is made of the four components' exports, each in its place -
+// the adapter's stored parameters, the enumeration of the paused actions, of the paused protocols and cross-chain
+// identifiers, and of the two statistics maps (what each component export is, is proved on the component).
+//@ func (k *Keeper) ExportGenesis(ctx) (g)
+//@   requires[inv] k != nil && k.adapter != nil && k.dispatcher != nil && k.forwarder != nil && k.executor != nil
+//@   requires[inv] storedActionsOK(k.executor) && storedProtocolsOK(k.forwarder) && storedCrossChainsOK(k.forwarder) && amtKeysOK(k.dispatcher) && cntKeysOK(k.dispatcher)
+//@   modifies it_pos, it_set
+//@   ensures[C17] g != nil && g.AdapterGenesis != nil && g.DispatcherGenesis != nil && g.ForwarderGenesis != nil && g.ExecutorGenesis != nil
+//@   ensures[C17] item_set[k.adapter.params] ==> g.AdapterGenesis.Params == item_params[k.adapter.params]
+//@   ensures[C17] len(g.ExecutorGenesis.PausedActionIds) == enumLenI32(aset(k.executor)) && forall j int trigger(g.ExecutorGenesis.PausedActionIds[j]) :: 0 <= j && j < len(g.ExecutorGenesis.PausedActionIds) ==> g.ExecutorGenesis.PausedActionIds[j] == enumAtI32(aset(k.executor), j)
+//@   ensures[C17] len(g.ForwarderGenesis.PausedProtocolIds) == enumLenI32(pset(k.forwarder)) && len(g.ForwarderGenesis.PausedCrossChainIds) == enumLenP(cset(k.forwarder))
+//@   ensures[C17] len(g.DispatcherGenesis.DispatchedAmounts) == enumLenQ(amap(k.dispatcher)) && len(g.DispatcherGenesis.DispatchedCounts) == enumLenQC(cmap(k.dispatcher))
